@@ -20,11 +20,15 @@ METHODS = ['central', 'central2', 'forward', 'backward', 'complex', 'multicomple
 
 ARR = ('arr', (0.1, 0.2))
 ARR0 = ('arr', (0.1, 0.0))
+ARRN = ('arr', (0.1, -0.2))      # per-coordinate base steps of either sign
+CPX = ('cpx', (-0.25, 0.25))     # a complex base step (documented for Limit: "step: float, complex, array-like")
 
 
 def menus(cls):
     m = dict(
-        base_step=[0.25, 1e-3, ARR, 0.0, ARR0],
+        # negative base steps are documented (Limit: the limit is then taken from below); the sequence is the same
+        # closed form, and only steps that are exactly zero are dropped
+        base_step=[0.25, 1e-3, ARR, 0.0, ARR0, -0.125, ARRN] + ([CPX] if cls == 'C' else []),
         step_ratio=[2, 1.6, 4, 3.5] if cls != 'C' else [2, 1.6, 3.5, 16],
         num_steps=[1, 3, 10] + ([None] if cls == 'Max' else []),
         step_nom=[1, 2.5],
@@ -63,6 +67,8 @@ def nord_pool(ctx):
 def _val(v):
     if isinstance(v, (tuple, list)) and len(v) == 2 and v[0] == 'arr':
         return np.array(v[1], dtype=float)
+    if isinstance(v, (tuple, list)) and len(v) == 2 and v[0] == 'cpx':
+        return complex(v[1][0], v[1][1])
     return v
 
 
